@@ -205,3 +205,13 @@ func verifCheckC01Statuses(s *session) {
 }
 
 var _ = definition.NewLocalization
+
+// VerifC10_ResumeLimit: the "impossible resumption" clause for the resume
+// limit: the harness of VerifC05_ResumeLimit (sessions with several runs whose
+// waits count towards MaxResumesPerSession wherever they happened) — the
+// resume that hits the limit ends the session as failed with a failure event
+// and every run exited, with a nil Go error.
+// cover: limit-reached, several-runs, limit-reached-across-runs
+func VerifC10_ResumeLimit() {
+	VerifC05_ResumeLimit()
+}
